@@ -21,6 +21,9 @@ pub enum SOp {
     SetFlag { k: u8 },
     WaitFlag { k: u8 },
     SleepMs { ms: u8 },
+    /// arm a rendezvous at the bucket CAS for buckets of `len` entries: the next `parties` threads that
+    /// are about to install such a bucket wait for each other (relaxed polling) and then race
+    GateCas { len: u32, parties: u8 },
 }
 
 #[derive(Clone, Debug, serde::Serialize, serde::Deserialize, Hash)]
